@@ -37,6 +37,7 @@ MANIFEST = {
             "enable_stropping=false are out of scope; the middle-of-identifier '__' rule of C++ is not part of the configuration.",
 }
 MANIFEST["text"] += " Several configurations of one language (differing only in reserved-pattern / encoding-rule tables, or in the C++ constructor convention) are kept alive in one process and asked the same input back to back; returned tokens are also judged against the configuration's encoding rules (nothing those rules replace may be left)."
+MANIFEST["text"] += ' Language objects of one target are created and released one after the other with changing configurations, every answer judged against the configuration of the object that gave it.'
 
 ID_TYPES = ["any", "path", "macro", "typedef", "function", "enum"]
 ALPH = ["a", "z", "E", "i", "s", "u", "I", "t", "A", "_", "0", "9", " ", "\t", "-", ".", "é", "́", "x"]
